@@ -595,3 +595,18 @@ Theorem C19_source_savgol_params : forall wing ww ord,
   fn_savgol_params wing ww ord =
   (sg_window (savgol_params wing ww ord), sg_order (savgol_params wing ww ord), sg_iter (savgol_params wing ww ord)).
 Proof. exact fn_savgol_params_eq. Qed.
+
+(* ---- loop tie: ONE ITERATION of biweight_location's `for _i in range(max_iter)` loop, translated from the Python
+   source on every run (Gen/FnBilocLoop.v fn_biloc_step): the convergence test and the re-centring *)
+From CNV Require Gen.FnBilocLoop Proofs.FnBilocLoop.
+Theorem C19_source_biloc_step : forall c eps a initial last,
+  Gen.FnBilocLoop.fn_biloc_step initial last eps (biloc_iter c eps a initial)
+  = let r := biloc_iter c eps a initial in
+    if qle_b (qabs (qsub r initial)) eps then (initial, r, true) else (r, r, false).
+Proof. exact Proofs.FnBilocLoop.source_biloc_step. Qed.
+
+(* ... and the step iterated (at most fuel times, stopping at the first break) IS the model's loop *)
+Theorem C19_source_biloc_loop : forall fuel c eps a initial last,
+  Proofs.FnBilocLoop.for_range fuel (fun i r => Gen.FnBilocLoop.fn_biloc_step i r eps (biloc_iter c eps a i)) initial last
+  = biloc_loop fuel c eps a initial last.
+Proof. exact Proofs.FnBilocLoop.source_biloc_loop. Qed.
